@@ -396,7 +396,18 @@ def r6_exact_app_lookup(ctx):
     r5_exact_lookup_first(ctx, rule_id='R-C11.6')
 
 
+def r7_fk_references_live_column(ctx):
+    """Foreign keys generated or rebuilt after a rename must reference the
+    related model's *current* primary key column: the REFERENCES clause is
+    built from the related primary key field's `.column` (shared with
+    R-C01.10), not from a name recorded elsewhere that renames do not keep up
+    to date."""
+    from .c01 import r10_quoted_identifiers
+    r10_quoted_identifiers(ctx, rule_id='R-C11.7')
+
+
 def run(ctx):
+    r7_fk_references_live_column(ctx)
     r6_exact_app_lookup(ctx)
     r5_applabel_target(ctx)
     r1_reference_shape(ctx)
